@@ -1330,13 +1330,14 @@ class Interp:
                     decided = True
                     for i in range(1, len(vals)):
                         lo, hi = self.interval(vals[i] - vals[best], st)
+                        # ties: the chosen element has the same key value either way (callers read the key attribute)
                         if fname == "max":
-                            if lo is not None and lo > 0:
+                            if lo is not None and lo >= 0:
                                 best = i
                             elif not (hi is not None and hi <= 0):
                                 decided = False
                         else:
-                            if hi is not None and hi < 0:
+                            if hi is not None and hi <= 0:
                                 best = i
                             elif not (lo is not None and lo >= 0):
                                 decided = False
